@@ -86,6 +86,9 @@ func c15Oracle(r *SeqRun) []Viol {
 			out = append(out, Viol{Key: "C15/goroutines-after-clear", What: fmt.Sprintf("after Clear %d background goroutines are running, want 2 (applier restarted, policy)", d.Daemons)})
 		}
 		// behaves as a fresh cache: Set / Wait / Get / Del / Wait / Get
+		if upd, probed := r.Probe["p_upd"]; probed && upd != 1 {
+			out = append(out, Viol{Key: "C15/not-fresh-after-clear", What: "after Clear an overwrite of a plain entry with SetWithTTL is not served"})
+		}
 		if want, got := "set=1 get=1 get2=0", fmt.Sprintf("set=%d get=%d get2=%d", r.Probe["p_set"], r.Probe["p_get"], r.Probe["p_get2"]); want != got {
 			out = append(out, Viol{Key: "C15/not-fresh-after-clear", What: "after Clear the probe Set/Wait/Get/Del/Wait/Get observed " + got + ", a new cache gives " + want})
 		}
@@ -93,10 +96,10 @@ func c15Oracle(r *SeqRun) []Viol {
 			out = append(out, Viol{Key: "C15/expiry-processing-not-fresh-after-clear", What: fmt.Sprintf("after Clear a SetWithTTL(1s) entry is still stored=%d after eight sweeps spread over 24 s (capacity fully free: %d); a new cache reclaims it", r.Probe["p_ttl_left"], r.Probe["p_ttl_room"])})
 		}
 		if r.Probe["m_on"] == 1 {
-			want := "hits=1 misses=1 keys-added=1 keys-evicted=1 cost-added=1 cost-evicted=1"
+			want := "hits=2 misses=1 keys-added=1 keys-evicted=1 cost-added=1 cost-evicted=1" // (two probe Gets hit: the Set and its TTL overwrite)
 			got := fmt.Sprintf("hits=%d misses=%d keys-added=%d keys-evicted=%d cost-added=%d cost-evicted=%d", r.Probe["m_hits"], r.Probe["m_misses"], r.Probe["m_added"], r.Probe["m_evicted"], r.Probe["m_costadded"], r.Probe["m_costevicted"])
 			if want != got {
-				out = append(out, Viol{Key: "C15/metrics-not-fresh-after-clear", What: "after Clear the probe Set/Wait/Get/Del/Wait/Get left the metrics at " + got + "; on a new cache they are " + want})
+				out = append(out, Viol{Key: "C15/metrics-not-fresh-after-clear", What: "after Clear the probe Set/Wait/Get/SetWithTTL/Get/Del/Wait/Get left the metrics at " + got + "; on a new cache they are " + want})
 			}
 		}
 	case "close":
@@ -162,6 +165,11 @@ func c15Probe(c seqCache, r *SeqRun) {
 			c.Wait()
 			v, ok := c.Get(9)
 			r.Probe["p_get"] = b2i(ok && v == 999)
+			// overwrite of the plain entry WITH a TTL, before any TTL insert since the Clear (the
+			// expiry index must accept a move of a key it never filed)
+			c.SetTTL(9, 998, 1, time.Hour)
+			v, ok = c.Get(9)
+			r.Probe["p_upd"] = b2i(ok && v == 998)
 			c.Del(9)
 			c.Wait()
 			_, ok = c.Get(9)
